@@ -391,6 +391,10 @@ def judge_corr(ctx, got, exp, label, plabel=None, hint=(0.0, 0.0), hints=None, r
     gm = to_model(got)
     compared = 0
     ctx.count('timeslices_judged', T)
+    ctx.count('judged:' + plabel)                       # how often each method's result met the oracle (checklist 13)
+    nund = sum(1 for e in exp if e is None)
+    if nund:
+        ctx.count('judged-undefined-slices:' + plabel, nund)
     for t in range(T):
         e, g = exp[t], gm[t]
         ctx.ev()
@@ -436,11 +440,27 @@ class Layout:
         self.names = [self.ens if r is None else '%s|%s' % (self.ens, r) for r in reps]
         self.idls = []
         step = int(rng.choice([1, 1, 2, 3]))      # common spacing of all replicas of the ensemble (needed by gamma_method)
+        long = rng.random() < 0.02                # more than 255 configurations per replica (checklist 12)
         for _ in reps:
-            n = int(rng.integers(nmin, nmax + 1))
+            n = int(rng.integers(nmin, nmax + 1)) if not long else int(rng.integers(260, 300))
             kind = str(rng.choice(['strided', 'strided', 'gapped']))
             self.idls.append(gen.rand_idl(rng, n, kind, step=step, as_type=str(rng.choice(['list', 'native']))))
+        self.step = step
         self.common = [rng.normal(size=len(i)) for i in self.idls]
+
+    def shifted_twin(self, rng):
+        """same ensemble, same replica names, equally many configurations with the same spacing - but other configuration
+        numbers (shifted by a few spacings, so the lists overlap partly): equal summaries, different members (checklist 10)"""
+        tw = copy.copy(self)
+        k = int(rng.integers(1, 4)) * self.step
+        tw.idls = []
+        for i in self.idls:
+            if isinstance(i, range):
+                tw.idls.append(range(i.start + k, i.stop + k, i.step))
+            else:
+                tw.idls.append([int(c) + k for c in i])
+        tw.common = [rng.normal(size=len(i)) for i in tw.idls]
+        return tw
 
     def obs(self, rng, mean, rel=0.03):
         sigma = rel * abs(mean) + 1e-3
@@ -579,7 +599,8 @@ def make_scalar_partner(rng, ptype, layout, positive=False, nonzero=True):
     lo = 0.3
     sign = 1.0 if positive else float(rng.choice([-1.0, 1.0]))
     v = sign * float(rng.uniform(lo, 3.0))
-    lay = layout if rng.random() < 0.5 else Layout(rng)
+    u = rng.random()
+    lay = layout if u < 0.45 else (layout.shifted_twin(rng) if u < 0.6 else Layout(rng))
     if ptype == 'Obs':
         return lay.obs(rng, v)
     if ptype == 'CObs':
@@ -730,8 +751,11 @@ def do_binop(ctx, rng, cell, mask, required):
             Np = N
         else:
             Np = N if rng.random() < 0.6 else 1
-        y = make_corr(ctx, rng, T, Np, 'complex' if partner == 'CorrC' else 'real', str(rng.choice(MASKS)),
-                      lay if rng.random() < 0.6 else Layout(rng))
+        u = rng.random()
+        play = lay if u < 0.5 else (lay.shifted_twin(rng) if u < 0.7 else Layout(rng))
+        if u >= 0.5 and u < 0.7:
+            ctx.count('partner_on_other_configurations_of_equal_number')
+        y = make_corr(ctx, rng, T, Np, 'complex' if partner == 'CorrC' else 'real', str(rng.choice(MASKS)), play)
     elif partner == 'ndarray':
         y = rng.uniform(0.5, 2.0, size=T) * rng.choice([-1.0, 1.0], size=T)
     elif op == '**' and order == 'L':
@@ -745,6 +769,9 @@ def do_binop(ctx, rng, cell, mask, required):
             y = make_scalar_partner(rng, partner, lay)
     else:
         y = make_scalar_partner(rng, partner, lay)
+    if op in ('+', '-', '*') and partner in ('int', 'float', 'npfloat', 'complex') and rng.random() < 0.12:
+        y = type(y)(0)          # a zero partner: c * 0 has no fluctuations, c + 0 changes nothing (checklist 14)
+        ctx.count('zero_partners')
     left, right = (A, y) if order == 'L' else (y, A)
     label = '%s(%s,%s)' % (op, type_label(left), type_label(right))
     plabel = DUNDER[(op, 'L')] if is_corr(left) else DUNDER[(op, 'R')]
@@ -937,6 +964,9 @@ def do_index(ctx, rng, kind, mask):
 
         def vec():
             v = rng.uniform(0.3, 2.0, size=N) * rng.choice([-1.0, 1.0], size=N)
+            if rng.random() < 0.3:
+                v[0 if rng.random() < 0.5 else N - 1] = 0.0      # spectator row / column of the matrix (checklist 14)
+                ctx.count('projection_vectors_with_zero_entry')
             return v
         if variant == 'default':
             call = lambda: A.projected()
@@ -1060,6 +1090,10 @@ def do_matmul(ctx, rng, variant, mask):
         hint = (hint[0] ** 2 * N, hint[0] * hint[1] * 2 * N)
     else:
         M = rng.uniform(0.3, 2.0, size=(N, N)) * rng.choice([-1.0, 1.0], size=(N, N))
+        if rng.random() < 0.3:
+            M[int(rng.integers(0, N)), :] = 0.0
+        if rng.random() < 0.3:
+            M[:, int(rng.integers(0, N))] = 0.0
         M0 = [[float(x) for x in row] for row in M]
         if variant == 'right-array':
             label, plabel = '@(Corr,ndarray)', '__matmul__'
@@ -1248,11 +1282,14 @@ def do_misc(ctx, rng, idx):
     quiet(ctx, lambda: A.correlate(w), 'correlate')
     quiet(ctx, lambda: A.correlate(B), 'correlate')
     # plots and dumps: only a few (slow)
-    if idx % 8 == 0:
-        xr, yr, refs, comp = [0, T - 1], [-1.0, 4.0], [0.5, 1.0], [B]
+    if idx % 2 == 0:
+        xr, yr, refs, comp = [0, T - 1], [4.0, -1.0][::-1], [1.0, 0.5, 0.75], [B, A]
         quiet(ctx, lambda: A.show(x_range=xr, comp=comp, y_range=yr, references=refs, auto_gamma=True, hide_sigma=2.0), 'show')
         quiet(ctx, lambda: A.show(xr, B, logscale=True), 'show')
+        plt.close('all')
+    else:
         quiet(ctx, lambda: abs(A).spaghetti_plot(), 'spaghetti_plot')
+        quiet(ctx, lambda: abs(A).spaghetti_plot(logscale=False), 'spaghetti_plot')
         plt.close('all')
         with tempfile.TemporaryDirectory(prefix='vmon_c14_') as d:
             quiet(ctx, lambda: A.dump('c', datatype='json.gz', path=d), 'dump')
@@ -1723,14 +1760,23 @@ def plan(tier):
     m = 1 if tier == 'quick' else 12
     p = []
     for mask in MASKS:
-        p += [('binop:' + mask, len(REQUIRED_CELLS) * m), ('func:' + mask, len(FUNC_CELLS) * m), ('index:' + mask, len(INDEX_KINDS) * 3 * m),
-              ('matmul:' + mask, 15 * m), ('hard:' + mask, len(HARD) * 5 * m)]
-    p += [('binop_open', len(OPEN_CELLS) * m), ('history', 100 * m), ('misc', 40 * m), ('gevp', 16 * m)]
+        # every index map / function / scenario meets its oracle >= ~50 times per quick run (checklist 13; counters judged:<method>)
+        for k in range(3):
+            p.append(('index%d:%s' % (k, mask), len(INDEX_KINDS) * (5 if k == 0 else 4) * m))
+        for k in range(2):
+            p.append(('func%d:%s' % (k, mask), len(FUNC_CELLS) * m))
+        p += [('binop:' + mask, len(REQUIRED_CELLS) * m), ('matmul:' + mask, 39 * m), ('hard:' + mask, len(HARD) * 13 * m)]
+    p += [('binop_open', len(OPEN_CELLS) * m), ('history', 100 * m), ('misc', 52 * m), ('gevp', 26 * m)]
     return p
 
 
 def run_case(ctx, kind, idx, rng):
     kind, _, mask = kind.partition(':')
+    if kind[:-1] in ('index', 'func') and kind[-1].isdigit():
+        # sub-kinds of equal length (see plan): the index of the case continues over the sub-kinds
+        k = int(kind[-1])
+        kind = kind[:-1]
+        idx = idx + k * (len(INDEX_KINDS) * 5 if kind == 'index' else len(FUNC_CELLS)) * (1 if ctx.tier == 'quick' else 12)
     if kind == 'binop':
         do_binop(ctx, rng, REQUIRED_CELLS[idx % len(REQUIRED_CELLS)], mask, True)
     elif kind == 'binop_open':
